@@ -24,27 +24,27 @@ CLAIMED = {
             "abstract interpretation in an exactness domain {ONE, INT(linear form), ROUNDED} with loop and call summaries; interval interpretation of the scoring helper", "§3/C03, §9.2"),
     "C04": ("partial: API filter, helper-symbol containment, error discipline, visitor exhaustiveness, scanner leaves = input slices with a "
             "column advance that matches the consumed length, complete mode accepts only complete matches, the forest memo key covers mode/start/word, "
-            "helper-rule ids are unique across merged specs, byte scanners run at byte-aligned columns only",
+            "helper-rule ids are unique across merged specs, byte scanners run at byte-aligned columns only, the memo behind the API filter's verdicts distinguishes bindings",
             "control dependence of yields, writer/reader prefix tables, who-may-call, sibling cross-check, key-construction tracing, chain-of-custody of the id prefix", "§3/C04, §9.2"),
     "C06": ("the state-identity argument of Earley termination plus two progress clauses: items admitted to a column have a finite, hash/eq-consistent identity, the "
             "de-duplication cannot be bypassed, the column index strictly advances, a completed scan must have consumed input (unconditional no-progress rejection), "
             "the upward walk of construct_incomplete_tree takes the earliest waiting item",
             "field-set derivation from __hash__/__eq__ + annotation domains, who-may-write, CFG loop-variant query, guard-conjunct check, first-match idiom recognition", "§3/C06, §9.2"),
     "C07": ("partial: operator tables, raising combination = failure, vacuous truth, lazy == eager, inversion duality, selector dispatch, memo keys distinguish bindings, "
-            "constant-index grammar accessors only where the slot is fixed, a failing comparison never scores as satisfied, quantifier bindings are forwarded",
+            "constant-index grammar accessors only where the slot is fixed, a failing comparison never scores as satisfied, quantifier bindings are forwarded and written only into dictionaries the quantifier built itself",
             "three-way table agreement (lexer literals / converter / Comparison), accumulator obligations on CFG paths, sibling cross-checks, grammar-alternative analysis of ctx.X(k)", "§3/C07, §9.2"),
     "C08": ("'never silently altered or dropped': every parser rule that can reach the translator's default child-aggregator is transparent, "
             "every operator token maps to CPython's own operator class through the handler's own branch, literals are decoded by Python's evaluator, parameter kinds feed the right ast.arguments field, "
             "ordinal accessors are slot-safe, comparison chains absorbed by an operand are re-joined, a trailing comma makes a tuple",
             "dispatch-coverage analysis over the ANTLR grammar and the visitor classes; operator table vs ast._Unparser", "§3/C08, §9.2"),
     "C09": ("partial: codec roles never cross (so str/bytes/bits views agree and do not depend on request order), value payloads are never "
-            "mutated behind shared references, value() is an in-order left fold without caching, the bit view has exactly eight characters per byte for every length",
+            "mutated behind shared references, value() is an in-order left fold without caching, the bit view has exactly eight characters per byte for every length, TreeValue.append never drops the left operand's pending bits",
             "role-typed flow check over call sites, who-may-write, return-freshness, fold-shape check, length-domain evaluation of the bit rendering", "§3/C09, §9.2"),
     "C10": ("purity of read-only accessors and of operators w.r.t. their input trees (every witness chain), invalidation completeness and writer discipline for memoised fields, identity "
             "fields, copy completeness, positions looked up by reference, symbol hashes carry the symbol kind",
             "interprocedural ownership/effect analysis (regions, links, dispatch, save/restore brackets) + CFG post-dominance", "§3/C10, §9.2"),
     "C11": ("partial: memo keys cover every input of the miss path and distinguish bindings, are computed before scopes are mutated, hit paths return copies, what a hit deep-copies is copyable "
-            "(type closure clear of spec globals), lists extended in place come from per-call builders, node-level memos handed out by reference are immutable",
+            "(type closure clear of spec globals), lists extended in place come from per-call builders, node-level memos handed out by reference are immutable, quantifiers bind only into dictionaries they own, memoised fitness methods read no re-bindable module state, symbol hashes carry the kind",
             "memo-idiom recognition, def-use key slicing, CFG ordering, field-type-graph reachability, return-freshness", "§3/C11, §9.2"),
     "C12": ("the cache protocol behind history-independent parsing: publish after completion, served trees share nothing with the memo, "
             "hit path == miss path, per-parse state reset, the key covers every input of the producer (recognised through helper methods as well), values memoised on symbols / grammar nodes / converters do not depend on inputs their slot or key does not cover",
